@@ -45,7 +45,8 @@ ASSUMPTIONS = [
     "pair laws are checked within a type (same class)",
 ]
 
-CODES = [4326, 3857, 3577, 3035, 32633, 32601, 32660, 2193, 27700, 32755, 4283]
+# 2463 and 20064 are one definition under two EPSG codes (pyproj: equal)
+CODES = [4326, 3857, 3577, 3035, 32633, 32601, 32660, 2193, 27700, 32755, 4283, 2463, 20064]
 TRANSFORM_CODES = [4326, 3857, 3577, 3035, 32633, 32601, 32660, 2193, 32755, 4283]  # no datum-shift ambiguity
 CHURN_CODES = list(range(32602, 32660)) + list(range(32701, 32755))
 CUSTOM = {
@@ -59,7 +60,7 @@ PROJ4 = {  # lossy spellings: no equality with the EPSG-built CRS is expected, t
     3857: "+proj=merc +a=6378137 +b=6378137 +lat_ts=0 +lon_0=0 +x_0=0 +y_0=0 +k=1 +units=m +nadgrids=@null +wktext +no_defs",
     4283: "+proj=longlat +ellps=GRS80 +no_defs",
 }
-ROUTES = ["int", "EPSG", "epsg", "Epsg", "wkt2019", "wkt2018", "json", "pyproj_epsg", "pyproj_wkt", "pyproj_json", "copy", "pickle"]
+ROUTES = ["int", "EPSG", "epsg", "Epsg", "EPSG0", "wkt2019", "wkt2018", "json", "pyproj_epsg", "pyproj_wkt", "pyproj_json", "copy", "pickle"]
 CUSTOM_ROUTES = ["wkt2019", "wkt2018", "json", "pyproj_wkt", "pyproj_json", "copy", "pickle"]
 
 REF: Dict[str, Any] = {}  # built in the parent, inherited through fork (plain pyproj, no odc.geo.CRS)
@@ -87,6 +88,10 @@ def parent_init(tier: str, opts: dict) -> None:
         p = pyproj.CRS.from_user_input(proj4)
         specs[name] = {"wkt2019": p.to_wkt(version=WktVersion.WKT2_2019), "wkt2018": p.to_wkt(version=WktVersion.WKT2_2018), "json": p.to_json_dict(), "pp": p}
     REF["specs"] = specs
+    cls: Dict[Any, Any] = {}
+    for a in CODES + list(CUSTOM):
+        cls[a] = next((b for b in cls if specs[a]["pp"] == specs[b]["pp"]), a)
+    REF["class"] = cls  # ground truth for "same CRS": pyproj's own comparison of the EPSG definitions
     probes: Dict[Any, Tuple[float, float]] = {}
     for code in list(TRANSFORM_CODES) + CHURN_CODES + list(CUSTOM):
         p = specs[code]["pp"]
@@ -276,6 +281,8 @@ def build_crs(code: Any, route: str) -> Any:
         return CRS(f"epsg:{code}")
     if route == "Epsg":
         return CRS(f"Epsg:{code}")
+    if route == "EPSG0":
+        return CRS(f"EPSG:0{code}")  # zero-padded code
     if route == "wkt2019":
         return CRS(sp["wkt2019"])
     if route == "wkt2018":
@@ -634,7 +641,7 @@ class History:
             if not eq1 and tok == o["token"]:
                 self.report("O19.3", f"{kind}-unequal-but-same-token", pw, strs)
             if kind == "crs" and e.get("code") is not None and o.get("code") is not None:
-                want = e["code"] == o["code"]
+                want = REF["class"].get(e["code"], e["code"]) == REF["class"].get(o["code"], o["code"])
                 if want and not eq1:
                     self.report("O19.7", "crs-equivalent-specs-not-equal", pw, strs)
                 if not want and eq1:
@@ -660,8 +667,10 @@ class History:
                 self.report("O19.1", "crs-eq-not-symmetric", pw, strs)
             if eq1 and e.get("hashable") and o.get("hashable") and hash(v) != hash(w):
                 self.report("O19.2", "crs-equal-but-hashes-differ", pw, strs)
-            if e.get("code") is not None and o.get("code") is not None and (e["code"] == o["code"]) != eq1:
-                self.report("O19.7", "crs-equivalent-specs-not-equal" if e["code"] == o["code"] else "crs-different-crs-compare-equal", pw, strs)
+            if e.get("code") is not None and o.get("code") is not None:
+                want = REF["class"].get(e["code"], e["code"]) == REF["class"].get(o["code"], o["code"])
+                if want != eq1:
+                    self.report("O19.7", "crs-equivalent-specs-not-equal" if want else "crs-different-crs-compare-equal", pw, strs)
         for x, y, z in itertools.permutations(crs, 3):
             if x["value"] == y["value"] and y["value"] == z["value"] and not x["value"] == z["value"]:
                 self.report("O19.1", "crs-eq-not-transitive", {"kind": "crs", "a": x.get("spec"), "b": y.get("spec"), "c": z.get("spec"), "after": "epsg-read"})
